@@ -285,6 +285,18 @@ def check_write(mtjs, mode_i, fmt, lig, enc):
             os.unlink(dest + '.' + ext)
     # lig == 2: the option given with a value, `--dest-opts lex_in_grammar:0` (the option is a switch: present = on)
     opts = (cli_options({'lex_in_grammar': 0}) if lig == 2 else {'lex_in_grammar': True}) if lig else {}
+    if sum(m.n() for m in mts) % 2 == 0:
+        # non-initial state: on every other treebank the same grammar and lexicon objects were already written once,
+        # in all three formats, under another prefix (a refusal of the LoPar writer is part of that history)
+        prev = os.path.join(scratch(), 'prev%d' % os.getpid())
+        for other in ('lopar', 'pmcfg', 'rcg'):
+            try:
+                getattr(grammaroutput, other)(G, lex, prev, enc)
+            except Exception:
+                pass
+        for ext in ('pmcfg', 'rcg', 'lex', 'gram', 'start', 'oc', 'OC'):
+            if os.path.exists(prev + '.' + ext):
+                os.unlink(prev + '.' + ext)
     try:
         getattr(grammaroutput, fmt)(G, lex, dest, enc, **opts)
         err = None
